@@ -111,7 +111,8 @@ Disagrees(e, r) ==
   LET p == Predicted(e, r.doc)
   IN \/ p.ok # r.a
      \/ (e.preset = "quick_xml" /\ p.okdeny # r.b)
-     \/ (p.ok /\ r.a /\ r.c /\ (p.missA # r.missing_attr \/ p.missT # r.missing_text))
+     \* (attribute values are counted one by one; character data per element in the model, per text node in the harness)
+     \/ (p.ok /\ r.a /\ r.c /\ (p.missA # r.missing_attr \/ (p.missT = 0) # (r.missing_text = 0)))
 Compare(e) ==
   IF e.compiled /\ InDomain(e) /\ C04Tags(ModelStructs(e.tree, e.opts)) = {}
   THEN LET bad == {i \in 1..Len(e.runs) : Disagrees(e, e.runs[i])}
